@@ -98,6 +98,17 @@ def _extract(job):
     res = solver.residual(vm, sf, ef)
     if not np.array_equal(res.field[m], (sf.field - M @ ef.field)[m]):
         notes.append("solver.residual is not source - A e")
+    # a residual a caller holds on to is not touched by later calls
+    keep = res.field.copy()
+    ef2 = emg3d.Field(grid, frequency=f)
+    ef2.field[m] = rng.integers(-3, 4, int(m.sum()))
+    res2 = solver.residual(vm, sf, ef2)
+    if res2 is res or not np.array_equal(res.field, keep):
+        notes.append("a residual returned earlier changed with the next call")
+    if not np.array_equal(res2.field[m], (sf.field - M @ ef2.field)[m]):
+        notes.append("solver.residual (second call) is not source - A e")
+    if not np.array_equal(sf.field[m], sf.field[m]) or res.field is sf.field:
+        notes.append("residual aliases the source field")
     if solver.residual(vm, sf, ef, True) != float(np.linalg.norm(res.field)):
         if not np.isclose(solver.residual(vm, sf, ef, True),
                           np.linalg.norm(res.field), rtol=1e-15):
@@ -122,7 +133,9 @@ def _volume_model(seed):
     rng = np.random.default_rng(seed)
     shape = (3, 2, 4)
     h = [rng.uniform(1, 5, n) for n in shape]
-    grid = emg3d.TensorMesh(h, (0, 0, 0))
+    # (a Model may live on the plain BaseMesh as well as on a TensorMesh)
+    grid = emg3d.TensorMesh(h, (0, 0, 0)) if seed % 2 else \
+        emg3d.meshes.BaseMesh(h, (0, 0, 0))
     notes = []
     for case in range(4):
         sig = [10**rng.uniform(-2, 1, shape) for _ in range(3)]
